@@ -105,6 +105,22 @@ def run(ctx):
                           "an iteration increments `evictable` without is_tracked(..) == false on its path (tests: %s)"
                           % [(t[1][:50], t[2]) for t in p.tests], "", None, p.describe())
         ctx.floor("C20-b", "iterations of can_free that count an entry", n, 1)
+        # references are tracked by ABSOLUTE index (track_ref(index) with indices handed out by the table); the scan walks queue
+        # positions: the question put to is_tracked must be the position translated by the table's own address space
+        nq = 0
+        for h in heads:
+            for p in ex.paths(start=h, stop_at=heads):
+                for e in p.calls(D + "is_tracked"):
+                    nq += 1
+                    a = e[3][1] if len(e[3]) > 1 else None
+                    while a is not None and (a[0] in ("okval", "proj") or (a[0] == "call" and pa.short(a[1]) in ("unwrap", "expect", "unwrap_or", "unwrap_or_default") and a[2])):
+                        a = a[1] if a[0] in ("okval", "proj") else a[2][0]
+                    ok = a is not None and a[0] == "call" and a[1] == "h3::qpack::vas::VirtualAddressSpace::index" and a[2] and pa.vfmt(a[2][0]).endswith(".vas")
+                    ctx.check(ok, "C20-b", cf.key, "is_tracked is asked about vas.index(position), the entry's absolute index",
+                              "can_free asks is_tracked(%s): references are recorded under absolute indices, so after any eviction a queue "
+                              "position (or a position plus a constant) names a different entry and an entry still referenced by an "
+                              "unacknowledged field section is evicted" % (pa.vfmt(e[3][1])[:80] if len(e[3]) > 1 else "?"), "", None, p.describe())
+        ctx.floor("C20-b", "is_tracked questions in the can_free scan", nq, 1)
     # the scan stops at the first referenced entry: eviction is FIFO, so entries behind a referenced one must not be counted
     if cf:
         n_tr = 0
